@@ -139,8 +139,11 @@ package x509
 // configured time, satisfies its own name constraints, and - when a host name is requested - passed VerifyHostname.
 //@ (ghost host.ok B8)
 //@ (ghost host.cert Int)
-//@ (func "(*Certificate).VerifyHostname" trusted
+//@ (func matchHostnames sweep (modifies))
+//@ (func toLowerCaseASCII sweep (modifies))
+//@ (func "(*Certificate).VerifyHostname" sweep
 //@   (requires nn (not (isnil c)))
+//@   (modifies)
 //@   (ghost-set host.ok (ite (isnil result) #x01 #x00))
 //@   (ghost-set host.cert (obj c)))
 // frames of the chain search: nothing that existed before the call is written (the per-call cache is a map)
